@@ -96,15 +96,19 @@ def run(ctx):
             found="the option value (or its default) reaches the signer as text")
     cfg_conv = False
     init_ = repo.func(CMD, "RecursiveSigner.__init__")
-    for n_ in ast.walk(init_.node):
-        if isinstance(n_, ast.Assign) and any(isinstance(t_, ast.Attribute) and t_.attr == "already_signed_action" for t_ in n_.targets):
-            v_ = n_.value
-            if isinstance(v_, ast.Call):
-                r_ = repo.resolve_expr(cmdm, v_.func)
-                if r_ and r_[0] == "class" and r_[1].name == "SignatureAlreadyPresentActions":
-                    cfg_conv = True
-            elif isinstance(v_, ast.Name):
-                cfg_conv = cfg_conv or False
+    raw_text = False
+    # wherever in the class the attribute is stored (the constructor, or a private step of it)
+    for meth_ in {id(f_): f_ for f_ in init_.cls.methods.values()}.values():
+        for n_ in ast.walk(meth_.node):
+            if isinstance(n_, ast.Assign) and any(isinstance(t_, ast.Attribute) and t_.attr == "already_signed_action" for t_ in n_.targets):
+                v_ = n_.value
+                if isinstance(v_, ast.Call):
+                    r_ = repo.resolve_expr(cmdm, v_.func)
+                    if r_ and r_[0] == "class" and r_[1].name == "SignatureAlreadyPresentActions":
+                        cfg_conv = True
+                elif isinstance(v_, ast.Subscript):
+                    raw_text = True  # the configuration text itself
+    cfg_conv = cfg_conv and not raw_text
     R.check("C09-D1g action value is the enum", cfg_conv, "configuration value", mod=init_.module, node=init_.node, function=ctx.fq(init_),
             expected="SignatureAlreadyPresentActions(envelope_json['already-signed-action'])", found="configuration text stored without conversion")
     R.rule("C09-D1b detection", 2, "an authentication block is a byte string that decodes to tag 18")
